@@ -73,6 +73,8 @@ func C06(c *Ctx) {
 	c.lookaheadVisibilityRule("C06-11")
 	c.nestedArgsRule("C06-12")
 	c.pointerDescentRule("C06-13")
+	c.pathLenRule("C06-14")
+	c.templatedArgsRule("C06-15")
 	pfms := c.perFieldMatchers()
 	r.Rule("C06-1", "per-field matcher: every return is decided by ShouldSkip(dst.MatcherExpr()): on the true side it returns a SkipField for that node, every other return is on the false side")
 	r.Rule("C06-2", "per-field matcher: the default-matcher call is reached only after the loops over Converters, NameMapper, TemplatedNameMapper and Literals are exhausted; inside each loop a hit returns the assignment built from that element")
